@@ -2,6 +2,8 @@ package fdosim
 
 import (
 	"bytes"
+	crand "crypto/rand"
+	"crypto/rsa"
 	"context"
 	"fmt"
 	"io"
@@ -74,7 +76,9 @@ var c10StoreMethods = append(append([]string(nil), c03Methods...), "SetRVBlob", 
 var c10MfgKeys = []struct {
 	T    protocol.KeyType
 	Bits int
-}{{protocol.Secp256r1KeyType, 0}, {protocol.Secp384r1KeyType, 0}, {protocol.Rsa2048RestrKeyType, 2048}, {protocol.RsaPkcsKeyType, 3072}, {protocol.RsaPssKeyType, 3072}, {protocol.RsaPkcsKeyType, 2048}}
+}{{protocol.Secp256r1KeyType, 0}, {protocol.Secp384r1KeyType, 0}, {protocol.Rsa2048RestrKeyType, 2048}, {protocol.RsaPkcsKeyType, 3072}, {protocol.RsaPssKeyType, 3072}, {protocol.RsaPkcsKeyType, 2048},
+	// sizes outside the two the specification names (generated per run)
+	{protocol.RsaPkcsKeyType, 1024}, {protocol.RsaPssKeyType, 1536}}
 
 var c10KexNames = []string{"ECDH256", "ASYMKEX2048", "", "ECDH", "ecdh256", "DHKEXid16", "ASYMKEX4096", "ECDH521"}
 
@@ -768,11 +772,22 @@ func c10Run(env *Env, pl *C10Plan, collect map[c10Pos][]byte, baseAlloc uint64) 
 			// only devices of the 256 class may leave the HMAC-SHA384 engine out
 			d1.NoHmac384 = pl.Ord >= len(c10MfgKeys) && (cfg.Fam() == P256 || cfg.Fam() == RSA2048)
 			mn := s.Nodes["mfg"]
-			mn.MfgKeyOverride = func(protocol.KeyType) (protocol.KeyType, int) { return mk.T, mk.Bits }
-			mn.Rebuild()
+			if mk.Bits != 2048 && mk.Bits != 3072 && mk.Bits != 0 {
+				// the peer's key is the odd one: a device that presents a certificate
+				// request for an RSA key of a size the specification does not name
+				if k, err := rsa.GenerateKey(crand.Reader, mk.Bits); err == nil {
+					d1.Key = &KeyEntry{Role: "dev1", Fam: d1.Key.Fam, Key: k, Cert: d1.Key.Cert, Chain: d1.Key.Chain}
+				}
+			} else {
+				mn.MfgKeyOverride = func(protocol.KeyType) (protocol.KeyType, int) { return mk.T, mk.Bits }
+				mn.Rebuild()
+			}
 			tampered = true
 			runtime.ReadMemStats(&ms0)
 			desc = fmt.Sprintf("manufacturer answers with a key of type %d/%d bits, device without HMAC-SHA384 engine: %v", mk.T, mk.Bits, d1.NoHmac384)
+			if mk.Bits != 2048 && mk.Bits != 3072 && mk.Bits != 0 {
+				desc = fmt.Sprintf("device presents a certificate request for an RSA key of %d bits", mk.Bits)
+			}
 		}
 		perr = s.DI(ctx, d1, "mfg")
 	case "TO0", "TO1", "TO2":
